@@ -7,12 +7,17 @@ from mindsdb_sql.parser.ast.select import Star
 
 
 no_wrap_identifier_regex = re.compile(r'[a-zA-Z_][a-zA-Z_0-9]*')
-path_str_parts_regex = re.compile(r'(?:(?:(`[^`]+`))|([^.]+))')
+path_str_parts_regex = re.compile(r'(?:(?:(`(?:[^`]|``)+`))|([^.]+))')
 
 
 def path_str_to_parts(path_str: str):
-    match = re.finditer(path_str_parts_regex, path_str)
-    parts = [x[0].strip('`') for x in match]
+    parts = []
+    for match in re.finditer(path_str_parts_regex, path_str):
+        if match.group(1) is not None:
+            # quoted part: a doubled back-quote inside it stands for one back-quote
+            parts.append(match.group(1)[1:-1].replace('``', '`'))
+        else:
+            parts.append(match.group(2).strip('`'))
     return parts
 
 
